@@ -71,7 +71,12 @@ func SegNearXMP() Seg {
 func SegCOM() Seg {
 	return Seg{Marker: 0xFE, Payload: []byte("a comment \xff\xd8 with markers \xff\xd9 inside"), Kind: "com"}
 }
-func SegDRI() Seg { return Seg{Marker: 0xDD, Payload: []byte{0x00, 0x10}, Kind: "dri"} }
+func SegDRI() Seg { return SegDRIInterval(0x0010) }
+
+// SegDRIInterval is a DRI segment with the given restart interval (its two payload bytes may look like markers).
+func SegDRIInterval(ri uint16) Seg {
+	return Seg{Marker: 0xDD, Payload: []byte{byte(ri >> 8), byte(ri)}, Kind: "dri"}
+}
 func SegSOF(marker byte) Seg {
 	return Seg{Marker: marker, Payload: []byte{8, 0x0f, 0xa0, 0x17, 0x70, 3, 1, 0x22, 0, 2, 0x11, 1, 3, 0x11, 1}, Kind: "sof"}
 }
